@@ -1207,6 +1207,13 @@ func ruleKnockTable(c *Ctx) {
 		info := f.Pkg.TypesInfo
 		e = ast.Unparen(p.Deref(f, e))
 		switch x := e.(type) {
+		case *ast.CallExpr:
+			// a module predicate helper that just returns a condition on its argument
+			if ce := p.FnOf(asFunc(p.Callee(f, x))); ce != nil && ce.Decl != nil && len(ce.Body.List) == 1 {
+				if rs, ok := ce.Body.List[0].(*ast.ReturnStmt); ok && len(rs.Results) == 1 {
+					return eval(ce, rs.Results[0], v)
+				}
+			}
 		case *ast.UnaryExpr:
 			if x.Op == token.NOT {
 				r, ok := eval(f, x.X, v)
@@ -1264,22 +1271,45 @@ func ruleKnockTable(c *Ctx) {
 		return false, false
 	}
 	// the condition of the if statement in f that mentions .Knock.Ack
+	var mentionsAck func(f *Func, e ast.Expr, depth int) bool
+	mentionsAck = func(f *Func, e ast.Expr, depth int) bool {
+		mentions := false
+		ast.Inspect(p.Deref(f, e), func(y ast.Node) bool {
+			if se, ok := y.(*ast.SelectorExpr); ok && se.Sel.Name == "Ack" {
+				mentions = true
+			}
+			if call, ok := y.(*ast.CallExpr); ok && depth < 2 {
+				if ce := p.FnOf(asFunc(p.Callee(f, call))); ce != nil && ce.Decl != nil && len(ce.Body.List) == 1 {
+					if rs, ok := ce.Body.List[0].(*ast.ReturnStmt); ok && len(rs.Results) == 1 && mentionsAck(ce, rs.Results[0], depth+1) {
+						mentions = true
+					}
+				}
+			}
+			return true
+		})
+		return mentions
+	}
 	condOf := func(f *Func) ast.Expr {
 		var out ast.Expr
 		ast.Inspect(f.Body, func(x ast.Node) bool {
-			ifs, ok := x.(*ast.IfStmt)
-			if !ok || out != nil {
+			if out != nil {
 				return true
 			}
-			mentions := false
-			ast.Inspect(p.Deref(f, ifs.Cond), func(y ast.Node) bool {
-				if se, ok := y.(*ast.SelectorExpr); ok && se.Sel.Name == "Ack" {
-					mentions = true
+			switch st := x.(type) {
+			case *ast.IfStmt:
+				if mentionsAck(f, st.Cond, 0) {
+					out = st.Cond
 				}
-				return true
-			})
-			if mentions {
-				out = ifs.Cond
+			case *ast.SwitchStmt:
+				if st.Tag == nil {
+					for _, cl := range st.Body.List {
+						for _, ce := range cl.(*ast.CaseClause).List {
+							if out == nil && mentionsAck(f, ce, 0) {
+								out = ce
+							}
+						}
+					}
+				}
 			}
 			return true
 		})
